@@ -516,3 +516,9 @@ func minWire(t *schema.Type) int {
 	}
 	panic("ref: bad kind")
 }
+
+// ValueBytes returns the reference wire encoding of a single value of type t
+// (used to match Go map keys with the keys of a parsed message).
+func ValueBytes(t *schema.Type, v reflect.Value) []byte {
+	return appendValue(nil, t, v, nil)
+}
